@@ -484,9 +484,9 @@ func (r *Run) applyCorruptions(tx *bbolt.Tx, m *Model, list []Corruption) []appl
 			if !ok || !take(p) {
 				continue
 			}
-			del(mustBucket(tx, true, rootBucket, boltz.IndexesBucket, StPeople, "nick"), []byte(*m.People[p].Nick))
+			del(mustBucket(tx, true, rootBucket, boltz.IndexesBucket, StPeople, "alias"), []byte(*m.People[p].Nick))
 			out = append(out, appliedCorruption{c: c, desc: "nullable unique index entry (nick) of " + p + " removed",
-				expect: [][]string{{"unique index people.nick missing value " + *m.People[p].Nick + " for id " + p}}})
+				expect: [][]string{{"unique index people.alias missing value " + *m.People[p].Nick + " for id " + p}}})
 		case "fk-missing-backref-mentees":
 			var cands []string
 			for _, p := range people {
